@@ -56,11 +56,37 @@ fn b_i64() -> Vec<i64> {
         }
     }
     for v in [
-        0i128, 3, 5, 7, 10, 1000, 1_000_000, 1_000_000_000, IMIN, IMIN + 1, IMIN + 2, IMAX, IMAX - 1,
-        0x0000_FFFF_FFFF_FFFF, 0x0000_FFFF_FFFF_0000, 0x0001_0000_0000_0000, 0xF_FFFF_FFFF, 0x10_0000_0000,
-        (i32::MAX as i128) << 32, (i32::MIN as i128) << 32, ((i32::MAX as i128) << 32) | 0xFFFF_FFFF,
-        0x1234_5678_9ABC_DEF0, -0x1234_5678_9ABC_DEF0, IMAX / 2, IMIN / 2, IMAX / 3, IMIN / 3,
-        IMAX / 1_000_000, IMAX / 1_000_000 + 1, 0x8000_0000 * 3, 0xFFFF_FFFF * 0xFFFF,
+        0i128,
+        3,
+        5,
+        7,
+        10,
+        1000,
+        1_000_000,
+        1_000_000_000,
+        IMIN,
+        IMIN + 1,
+        IMIN + 2,
+        IMAX,
+        IMAX - 1,
+        0x0000_FFFF_FFFF_FFFF,
+        0x0000_FFFF_FFFF_0000,
+        0x0001_0000_0000_0000,
+        0xF_FFFF_FFFF,
+        0x10_0000_0000,
+        (i32::MAX as i128) << 32,
+        (i32::MIN as i128) << 32,
+        ((i32::MAX as i128) << 32) | 0xFFFF_FFFF,
+        0x1234_5678_9ABC_DEF0,
+        -0x1234_5678_9ABC_DEF0,
+        IMAX / 2,
+        IMIN / 2,
+        IMAX / 3,
+        IMIN / 3,
+        IMAX / 1_000_000,
+        IMAX / 1_000_000 + 1,
+        0x8000_0000 * 3,
+        0xFFFF_FFFF * 0xFFFF,
     ] {
         put(v);
     }
@@ -76,10 +102,23 @@ fn b_u64() -> Vec<u64> {
         }
     }
     for v in [
-        0u64, 3, 1000, u64::MAX, u64::MAX - 1, 0x8000_0000_0000_0000, 0x7FFF_FFFF_FFFF_FFFF,
-        0x8000_0000_0000_0001, 0xC000_0000_0000_0000, 0x4000_0000_0000_0000, 0xFFFF_FFFF_0000_0000,
-        0x0000_0001_0000_0000, 0xEB29_1F3A_8000_0000, 0xEB29_1F3B_0000_0001, 0x1234_5678_9ABC_DEF0,
-        0xFEDC_BA98_7654_3210, 0x0000_0000_FFFF_FFFF,
+        0u64,
+        3,
+        1000,
+        u64::MAX,
+        u64::MAX - 1,
+        0x8000_0000_0000_0000,
+        0x7FFF_FFFF_FFFF_FFFF,
+        0x8000_0000_0000_0001,
+        0xC000_0000_0000_0000,
+        0x4000_0000_0000_0000,
+        0xFFFF_FFFF_0000_0000,
+        0x0000_0001_0000_0000,
+        0xEB29_1F3A_8000_0000,
+        0xEB29_1F3B_0000_0001,
+        0x1234_5678_9ABC_DEF0,
+        0xFEDC_BA98_7654_3210,
+        0x0000_0000_FFFF_FFFF,
     ] {
         s.insert(v);
     }
@@ -107,7 +146,22 @@ fn b_f64() -> Vec<f64> {
         put(f64::from_bits(1u64 << k)); // subnormal powers of two
     }
     // around the saturation limits and integer / half-integer boundaries
-    for base in [0.0f64, 0.5, 1.0, 1.5, 2.0, 16.0, 65536.0, 2147483647.0, 2147483648.0, 2147483649.0, 4294967296.0, 9.2e18, 1e40, 1e300] {
+    for base in [
+        0.0f64,
+        0.5,
+        1.0,
+        1.5,
+        2.0,
+        16.0,
+        65536.0,
+        2147483647.0,
+        2147483648.0,
+        2147483649.0,
+        4294967296.0,
+        9.2e18,
+        1e40,
+        1e300,
+    ] {
         let mut up = base;
         let mut down = base;
         for _ in 0..6 {
@@ -125,9 +179,38 @@ fn b_f64() -> Vec<f64> {
         put(2147483646.0 + i as f64 / 64.0);
         put(1.0 / (1u64 << i.min(63)) as f64 + 1.0);
     }
-    for x in [0.1, 0.2, 0.3, 1e-3, 1e-6, 1e-9, 1e-10, 2.3283064365386963e-10, 1.1641532182693481e-10, 1e-12, 1e-20, 3.141592653589793,
-              86400.0, 31536000.0, 1e9, 1e10, 1e15, 1e18, 1e19, f64::MAX, f64::MIN_POSITIVE, f64::EPSILON, 0.999999999, 0.9999999999999999,
-              123456.789, 0.49999999999999994, 4294967295.0, 4294967295.5, 2147483647.9999998, 2147483647.5] {
+    for x in [
+        0.1,
+        0.2,
+        0.3,
+        1e-3,
+        1e-6,
+        1e-9,
+        1e-10,
+        2.3283064365386963e-10,
+        1.1641532182693481e-10,
+        1e-12,
+        1e-20,
+        3.141592653589793,
+        86400.0,
+        31536000.0,
+        1e9,
+        1e10,
+        1e15,
+        1e18,
+        1e19,
+        f64::MAX,
+        f64::MIN_POSITIVE,
+        f64::EPSILON,
+        0.999999999,
+        0.9999999999999999,
+        123456.789,
+        0.49999999999999994,
+        4294967295.0,
+        4294967295.5,
+        2147483647.9999998,
+        2147483647.5,
+    ] {
         put(x);
     }
     bits.into_iter().map(f64::from_bits).collect()
@@ -162,7 +245,17 @@ enum Want {
 /// mathematically exact result lies outside the representable range (so saturation was
 /// required). Returns true when it agrees.
 #[inline]
-fn judge(ctx: &Ctx, st: &St, fam: &str, op: &str, a: i128, b: i128, got: Result<i128, String>, want: Want, overflow: bool) -> bool {
+fn judge(
+    ctx: &Ctx,
+    st: &St,
+    fam: &str,
+    op: &str,
+    a: i128,
+    b: i128,
+    got: Result<i128, String>,
+    want: Want,
+    overflow: bool,
+) -> bool {
     st.evals.fetch_add(1, Ordering::Relaxed);
     let ok = match (&got, &want) {
         (Ok(g), Want::Exact(w)) => g == w,
@@ -179,7 +272,9 @@ fn judge(ctx: &Ctx, st: &St, fam: &str, op: &str, a: i128, b: i128, got: Result<
             Want::Exact(w) => format!("{w}"),
             Want::Between(lo, hi) => format!("{lo}..={hi}"),
         };
-        OBS.lock().unwrap().push(format!("{op}({a},{b}) got={got:?} want={w}"));
+        OBS.lock()
+            .unwrap()
+            .push(format!("{op}({a},{b}) got={got:?} want={w}"));
     }
     if ok {
         return true;
@@ -201,7 +296,14 @@ fn judge(ctx: &Ctx, st: &St, fam: &str, op: &str, a: i128, b: i128, got: Result<
             let kind = if overflow { "overflow" } else { "wrong" };
             ctx.violation(
                 &format!("C32:{fam}-{kind}"),
-                format!("{op}({a}, {b}) = {g}, reference {w}{}", if overflow { " (must saturate, wrapped instead)" } else { "" }),
+                format!(
+                    "{op}({a}, {b}) = {g}, reference {w}{}",
+                    if overflow {
+                        " (must saturate, wrapped instead)"
+                    } else {
+                        ""
+                    }
+                ),
                 format!("{op};{a};{b}"),
             );
         }
@@ -222,24 +324,106 @@ fn dur_binary(ctx: &Ctx, st: &St, a: i64, b: i64) {
     let (da, db) = (p::dur(a), p::dur(b));
     let sum = ai + bi;
     let dif = ai - bi;
-    judge(ctx, st, "dur-add", "dadd", ai, bi, common::catch(|| raw(da + db)), Want::Exact(clamp64(sum)), sum != clamp64(sum));
-    judge(ctx, st, "dur-sub", "dsub", ai, bi, common::catch(|| raw(da - db)), Want::Exact(clamp64(dif)), dif != clamp64(dif));
-    judge(ctx, st, "dur-add", "dadd_assign", ai, bi, common::catch(|| { let mut x = da; x += db; raw(x) }), Want::Exact(clamp64(sum)), sum != clamp64(sum));
-    judge(ctx, st, "dur-sub", "dsub_assign", ai, bi, common::catch(|| { let mut x = da; x -= db; raw(x) }), Want::Exact(clamp64(dif)), dif != clamp64(dif));
+    judge(
+        ctx,
+        st,
+        "dur-add",
+        "dadd",
+        ai,
+        bi,
+        common::catch(|| raw(da + db)),
+        Want::Exact(clamp64(sum)),
+        sum != clamp64(sum),
+    );
+    judge(
+        ctx,
+        st,
+        "dur-sub",
+        "dsub",
+        ai,
+        bi,
+        common::catch(|| raw(da - db)),
+        Want::Exact(clamp64(dif)),
+        dif != clamp64(dif),
+    );
+    judge(
+        ctx,
+        st,
+        "dur-add",
+        "dadd_assign",
+        ai,
+        bi,
+        common::catch(|| {
+            let mut x = da;
+            x += db;
+            raw(x)
+        }),
+        Want::Exact(clamp64(sum)),
+        sum != clamp64(sum),
+    );
+    judge(
+        ctx,
+        st,
+        "dur-sub",
+        "dsub_assign",
+        ai,
+        bi,
+        common::catch(|| {
+            let mut x = da;
+            x -= db;
+            raw(x)
+        }),
+        Want::Exact(clamp64(dif)),
+        dif != clamp64(dif),
+    );
     let ad = dif.abs();
-    judge(ctx, st, "dur-absdiff", "dabsdiff", ai, bi, common::catch(|| raw(da.abs_diff(db))), Want::Exact(clamp64(ad)), ad != clamp64(ad));
+    judge(
+        ctx,
+        st,
+        "dur-absdiff",
+        "dabsdiff",
+        ai,
+        bi,
+        common::catch(|| raw(da.abs_diff(db))),
+        Want::Exact(clamp64(ad)),
+        ad != clamp64(ad),
+    );
     // ordering is the integer ordering
     st.evals.fetch_add(1, Ordering::Relaxed);
     if (da < db) != (a < b) || (da == db) != (a == b) {
-        ctx.violation("C32:dur-order-wrong", format!("ordering of durations {a} and {b} differs from the integer ordering"), format!("dadd;{a};{b}"));
+        ctx.violation(
+            "C32:dur-order-wrong",
+            format!("ordering of durations {a} and {b} differs from the integer ordering"),
+            format!("dadd;{a};{b}"),
+        );
     }
 }
 
 fn dur_unary(ctx: &Ctx, st: &St, a: i64) {
     let ai = a as i128;
     let d = p::dur(a);
-    judge(ctx, st, "dur-neg", "dneg", ai, 0, common::catch(|| raw(-d)), Want::Exact(clamp64(-ai)), -ai != clamp64(-ai));
-    judge(ctx, st, "dur-abs", "dabs", ai, 0, common::catch(|| raw(d.abs())), Want::Exact(clamp64(ai.abs())), ai.abs() != clamp64(ai.abs()));
+    judge(
+        ctx,
+        st,
+        "dur-neg",
+        "dneg",
+        ai,
+        0,
+        common::catch(|| raw(-d)),
+        Want::Exact(clamp64(-ai)),
+        -ai != clamp64(-ai),
+    );
+    judge(
+        ctx,
+        st,
+        "dur-abs",
+        "dabs",
+        ai,
+        0,
+        common::catch(|| raw(d.abs())),
+        Want::Exact(clamp64(ai.abs())),
+        ai.abs() != clamp64(ai.abs()),
+    );
     // as_seconds_nanos: d = (s + n/1e9 + eps) * 2^32 with 0 <= eps < 1 ns, 0 <= n < 1e9
     st.evals.fetch_add(1, Ordering::Relaxed);
     match common::catch(|| d.as_seconds_nanos()) {
@@ -249,7 +433,11 @@ fn dur_unary(ctx: &Ctx, st: &St, a: i64) {
                 ctx.violation("C32:seconds-nanos-wrong", format!("as_seconds_nanos({a}) = ({s}, {n}) is not floor-decomposition of the duration"), format!("dneg;{a};0"));
             }
         }
-        Err(e) => ctx.violation("C32:seconds-nanos-panic", format!("as_seconds_nanos({a}) panicked: {e}"), format!("dneg;{a};0")),
+        Err(e) => ctx.violation(
+            "C32:seconds-nanos-panic",
+            format!("as_seconds_nanos({a}) panicked: {e}"),
+            format!("dneg;{a};0"),
+        ),
     }
     // log2 of a positive duration: floor(log2(seconds))
     if a > 0 {
@@ -257,13 +445,25 @@ fn dur_unary(ctx: &Ctx, st: &St, a: i64) {
         let want = (127 - ai.leading_zeros() as i128) - 32;
         match common::catch(|| d.log2()) {
             Ok(g) if g as i128 == want => {}
-            Ok(g) => ctx.violation("C32:log2-wrong", format!("log2({a}) = {g}, floor(log2) = {want}"), format!("dneg;{a};0")),
-            Err(e) => ctx.violation("C32:log2-panic", format!("log2({a}) panicked: {e}"), format!("dneg;{a};0")),
+            Ok(g) => ctx.violation(
+                "C32:log2-wrong",
+                format!("log2({a}) = {g}, floor(log2) = {want}"),
+                format!("dneg;{a};0"),
+            ),
+            Err(e) => ctx.violation(
+                "C32:log2-panic",
+                format!("log2({a}) panicked: {e}"),
+                format!("dneg;{a};0"),
+            ),
         }
     } else {
         st.evals.fetch_add(1, Ordering::Relaxed);
         if let Err(e) = common::catch(|| d.log2()) {
-            ctx.violation("C32:log2-panic", format!("log2({a}) panicked: {e}"), format!("dneg;{a};0"));
+            ctx.violation(
+                "C32:log2-panic",
+                format!("log2({a}) panicked: {e}"),
+                format!("dneg;{a};0"),
+            );
         }
     }
 }
@@ -296,14 +496,72 @@ macro_rules! scalar_case {
             let d = p::dur(a);
             let prod = ai * ki;
             let of = prod != clamp64(prod);
-            judge(ctx, st, "dur-mul", concat!("dmul.", $tn), ai, ki, common::catch(|| raw(d * k)), Want::Exact(clamp64(prod)), of);
-            judge(ctx, st, "dur-mul", concat!("dmulr.", $tn), ai, ki, common::catch(|| raw(k * d)), Want::Exact(clamp64(prod)), of);
-            judge(ctx, st, "dur-mul", concat!("dmul_assign.", $tn), ai, ki, common::catch(|| { let mut x = d; x *= k; raw(x) }), Want::Exact(clamp64(prod)), of);
+            judge(
+                ctx,
+                st,
+                "dur-mul",
+                concat!("dmul.", $tn),
+                ai,
+                ki,
+                common::catch(|| raw(d * k)),
+                Want::Exact(clamp64(prod)),
+                of,
+            );
+            judge(
+                ctx,
+                st,
+                "dur-mul",
+                concat!("dmulr.", $tn),
+                ai,
+                ki,
+                common::catch(|| raw(k * d)),
+                Want::Exact(clamp64(prod)),
+                of,
+            );
+            judge(
+                ctx,
+                st,
+                "dur-mul",
+                concat!("dmul_assign.", $tn),
+                ai,
+                ki,
+                common::catch(|| {
+                    let mut x = d;
+                    x *= k;
+                    raw(x)
+                }),
+                Want::Exact(clamp64(prod)),
+                of,
+            );
             if ki != 0 {
                 let (lo, hi) = quot_bounds(ai, ki);
                 let qof = ai == IMIN && ki == -1;
-                judge(ctx, st, "dur-div", concat!("ddiv.", $tn), ai, ki, common::catch(|| raw(d / k)), Want::Between(lo, hi), qof);
-                judge(ctx, st, "dur-div", concat!("ddiv_assign.", $tn), ai, ki, common::catch(|| { let mut x = d; x /= k; raw(x) }), Want::Between(lo, hi), qof);
+                judge(
+                    ctx,
+                    st,
+                    "dur-div",
+                    concat!("ddiv.", $tn),
+                    ai,
+                    ki,
+                    common::catch(|| raw(d / k)),
+                    Want::Between(lo, hi),
+                    qof,
+                );
+                judge(
+                    ctx,
+                    st,
+                    "dur-div",
+                    concat!("ddiv_assign.", $tn),
+                    ai,
+                    ki,
+                    common::catch(|| {
+                        let mut x = d;
+                        x /= k;
+                        raw(x)
+                    }),
+                    Want::Between(lo, hi),
+                    qof,
+                );
             }
         }
     };
@@ -331,7 +589,21 @@ fn scalars_signed(bits: u32) -> Vec<i128> {
             }
         }
     }
-    for v in [min, min + 1, max, max - 1, 0, 3, -3, 10, 1000, -1000, 1_000_000, -1_000_000, 15] {
+    for v in [
+        min,
+        min + 1,
+        max,
+        max - 1,
+        0,
+        3,
+        -3,
+        10,
+        1000,
+        -1000,
+        1_000_000,
+        -1_000_000,
+        15,
+    ] {
         if v >= min && v <= max {
             s.insert(v);
         }
@@ -385,16 +657,56 @@ fn ts_pair(ctx: &Ctx, st: &St, t: u64, u: u64) {
         st.half_era.fetch_add(1, Ordering::Relaxed);
     }
     let got = common::catch(|| raw(tu - tt));
-    let diff_ok = judge(ctx, st, "ts-sub", "tsub", ti, ui, got.clone(), Want::Exact(want), false);
+    let diff_ok = judge(
+        ctx,
+        st,
+        "ts-sub",
+        "tsub",
+        ti,
+        ui,
+        got.clone(),
+        Want::Exact(want),
+        false,
+    );
     // adding the difference back restores the timestamp
     let back = common::catch(|| p::ts_raw(tt + (tu - tt)) as i128);
-    judge(ctx, st, "ts-roundtrip", "troundtrip", ti, ui, back, Want::Exact(ui), false);
+    judge(
+        ctx,
+        st,
+        "ts-roundtrip",
+        "troundtrip",
+        ti,
+        ui,
+        back,
+        Want::Exact(ui),
+        false,
+    );
     let back2 = common::catch(|| p::ts_raw(tu - (tu - tt)) as i128);
-    judge(ctx, st, "ts-roundtrip", "troundtrip_sub", ti, ui, back2, Want::Exact(ti), false);
+    judge(
+        ctx,
+        st,
+        "ts-roundtrip",
+        "troundtrip_sub",
+        ti,
+        ui,
+        back2,
+        Want::Exact(ti),
+        false,
+    );
     // is_before: t is before u iff the shortest difference t - u is negative
     let wb = shortest(ti - ui) < 0;
     let gb = common::catch(|| tt.is_before(tu) as i128);
-    judge(ctx, st, "ts-before", "tbefore", ti, ui, gb, Want::Exact(wb as i128), false);
+    judge(
+        ctx,
+        st,
+        "ts-before",
+        "tbefore",
+        ti,
+        ui,
+        gb,
+        Want::Exact(wb as i128),
+        false,
+    );
     let _ = diff_ok;
 }
 
@@ -405,29 +717,104 @@ fn ts_dur(ctx: &Ctx, st: &St, t: u64, d: i64) {
     let minus = (ti - di).rem_euclid(TWO64);
     let wrapped_p = plus != ti + di;
     let wrapped_m = minus != ti - di;
-    judge(ctx, st, "ts-add", "tadd", ti, di, common::catch(|| p::ts_raw(tt + dd) as i128), Want::Exact(plus), wrapped_p);
-    judge(ctx, st, "ts-add", "tadd_assign", ti, di, common::catch(|| { let mut x = tt; x += dd; p::ts_raw(x) as i128 }), Want::Exact(plus), wrapped_p);
-    judge(ctx, st, "ts-subdur", "tsubd", ti, di, common::catch(|| p::ts_raw(tt - dd) as i128), Want::Exact(minus), wrapped_m);
-    judge(ctx, st, "ts-subdur", "tsubd_assign", ti, di, common::catch(|| { let mut x = tt; x -= dd; p::ts_raw(x) as i128 }), Want::Exact(minus), wrapped_m);
+    judge(
+        ctx,
+        st,
+        "ts-add",
+        "tadd",
+        ti,
+        di,
+        common::catch(|| p::ts_raw(tt + dd) as i128),
+        Want::Exact(plus),
+        wrapped_p,
+    );
+    judge(
+        ctx,
+        st,
+        "ts-add",
+        "tadd_assign",
+        ti,
+        di,
+        common::catch(|| {
+            let mut x = tt;
+            x += dd;
+            p::ts_raw(x) as i128
+        }),
+        Want::Exact(plus),
+        wrapped_p,
+    );
+    judge(
+        ctx,
+        st,
+        "ts-subdur",
+        "tsubd",
+        ti,
+        di,
+        common::catch(|| p::ts_raw(tt - dd) as i128),
+        Want::Exact(minus),
+        wrapped_m,
+    );
+    judge(
+        ctx,
+        st,
+        "ts-subdur",
+        "tsubd_assign",
+        ti,
+        di,
+        common::catch(|| {
+            let mut x = tt;
+            x -= dd;
+            p::ts_raw(x) as i128
+        }),
+        Want::Exact(minus),
+        wrapped_m,
+    );
 }
 
 fn ts_unary(ctx: &Ctx, st: &St, t: u64) {
     let tt = p::ts(t);
     for bits in 0..=255u8 {
-        let want: u64 = if bits >= 32 { 0 } else { t & !((1u64 << (bits as u32 + 32)) - 1) };
-        judge(ctx, st, "ts-truncate", "ttrunc", t as i128, bits as i128, common::catch(|| p::ts_raw(tt.truncated_second_bits(bits)) as i128), Want::Exact(want as i128), false);
+        let want: u64 = if bits >= 32 {
+            0
+        } else {
+            t & !((1u64 << (bits as u32 + 32)) - 1)
+        };
+        judge(
+            ctx,
+            st,
+            "ts-truncate",
+            "ttrunc",
+            t as i128,
+            bits as i128,
+            common::catch(|| p::ts_raw(tt.truncated_second_bits(bits)) as i128),
+            Want::Exact(want as i128),
+            false,
+        );
     }
     // wire round trip
     st.evals.fetch_add(1, Ordering::Relaxed);
     if NtpTimestamp::from_bits(tt.to_bits()) != tt || tt.to_bits() != t.to_be_bytes() {
-        ctx.violation("C32:ts-bits-wrong", format!("timestamp {t} does not survive to_bits/from_bits"), format!("ttrunc;{t};0"));
+        ctx.violation(
+            "C32:ts-bits-wrong",
+            format!("timestamp {t} does not survive to_bits/from_bits"),
+            format!("ttrunc;{t};0"),
+        );
     }
 }
 
 fn ts_secnanos(ctx: &Ctx, st: &St, s: u32, n: u32) {
     let want = ((s as i128) << 32) + ((n as i128) << 32) / 1_000_000_000;
-    judge(ctx, st, "ts-from-secnanos", "tsecnanos", s as i128, n as i128,
-        common::catch(|| p::ts_raw(NtpTimestamp::from_seconds_nanos_since_ntp_era(s, n)) as i128), Want::Exact(want), false);
+    judge(
+        ctx,
+        st,
+        "ts-from-secnanos",
+        "tsecnanos",
+        s as i128,
+        n as i128,
+        common::catch(|| p::ts_raw(NtpTimestamp::from_seconds_nanos_since_ntp_era(s, n)) as i128),
+        Want::Exact(want),
+        false,
+    );
 }
 
 // ---------------------------------------------------------------------------------
@@ -441,7 +828,11 @@ fn dur_seconds(ctx: &Ctx, st: &St, a: i64) {
     let x = match common::catch(|| d.to_seconds()) {
         Ok(x) => x,
         Err(e) => {
-            ctx.violation("C32:to-seconds-panic", format!("to_seconds({a}) panicked: {e}"), format!("dtosec;{a};0"));
+            ctx.violation(
+                "C32:to-seconds-panic",
+                format!("to_seconds({a}) panicked: {e}"),
+                format!("dtosec;{a};0"),
+            );
             return;
         }
     };
@@ -450,18 +841,31 @@ fn dur_seconds(ctx: &Ctx, st: &St, a: i64) {
     if RECORD.load(Ordering::Relaxed) {
         OBS.lock().unwrap().push(format!("to_seconds({a}) = {x:e}"));
     }
-    if !x.is_finite() || (x - exact).abs() > tol * (1.0 + 1e-12) || (x != 0.0 && a != 0 && (x < 0.0) != (a < 0)) {
-        ctx.violation("C32:to-seconds-wrong", format!("to_seconds({a}) = {x:e}, exact {exact:e} (tolerance 1e-9 relative + 1 unit)"), format!("dtosec;{a};0"));
+    if !x.is_finite()
+        || (x - exact).abs() > tol * (1.0 + 1e-12)
+        || (x != 0.0 && a != 0 && (x < 0.0) != (a < 0))
+    {
+        ctx.violation(
+            "C32:to-seconds-wrong",
+            format!("to_seconds({a}) = {x:e}, exact {exact:e} (tolerance 1e-9 relative + 1 unit)"),
+            format!("dtosec;{a};0"),
+        );
     }
     let back = match common::catch(|| raw(NtpDuration::from_seconds(x))) {
         Ok(b) => b,
         Err(e) => {
-            ctx.violation("C32:from-seconds-panic", format!("from_seconds(to_seconds({a})) panicked: {e}"), format!("dtosec;{a};0"));
+            ctx.violation(
+                "C32:from-seconds-panic",
+                format!("from_seconds(to_seconds({a})) panicked: {e}"),
+                format!("dtosec;{a};0"),
+            );
             return;
         }
     };
     if RECORD.load(Ordering::Relaxed) {
-        OBS.lock().unwrap().push(format!("from_seconds(to_seconds({a})) = {back}"));
+        OBS.lock()
+            .unwrap()
+            .push(format!("from_seconds(to_seconds({a})) = {back}"));
     }
     // |back - a| < |a| * 1e-9 + 1, exactly: (|delta| - 1) * 1e9 < |a|
     let delta = (back - ai).abs();
@@ -488,16 +892,26 @@ fn from_seconds_case(ctx: &Ctx, st: &St, fs: &FStat, x: f64) {
     let got = match common::catch(|| raw(NtpDuration::from_seconds(x))) {
         Ok(g) => g,
         Err(e) => {
-            ctx.violation("C32:from-seconds-panic", format!("from_seconds({x:e}) panicked: {e}"), tr);
+            ctx.violation(
+                "C32:from-seconds-panic",
+                format!("from_seconds({x:e}) panicked: {e}"),
+                tr,
+            );
             return;
         }
     };
     if RECORD.load(Ordering::Relaxed) {
-        OBS.lock().unwrap().push(format!("from_seconds({x:e}) = {got}"));
+        OBS.lock()
+            .unwrap()
+            .push(format!("from_seconds({x:e}) = {got}"));
     }
     // sign
     if (x > 0.0 && got < 0) || (x < 0.0 && got > 0) {
-        ctx.violation("C32:from-seconds-sign", format!("from_seconds({x:e}) = {got}: sign not preserved"), tr.clone());
+        ctx.violation(
+            "C32:from-seconds-sign",
+            format!("from_seconds({x:e}) = {got}: sign not preserved"),
+            tr.clone(),
+        );
     }
     // exact scaled value (scaling by 2^32 is exact unless it overflows to infinity)
     let scaled = x * 4294967296.0;
@@ -505,13 +919,21 @@ fn from_seconds_case(ctx: &Ctx, st: &St, fs: &FStat, x: f64) {
     if scaled >= two63 {
         fs.sat_max.fetch_add(1, Ordering::Relaxed);
         if got != IMAX {
-            ctx.violation("C32:from-seconds-saturation", format!("from_seconds({x:e}) = {got}, must saturate to i64::MAX"), tr);
+            ctx.violation(
+                "C32:from-seconds-saturation",
+                format!("from_seconds({x:e}) = {got}, must saturate to i64::MAX"),
+                tr,
+            );
         }
     } else if scaled <= -two63 {
         fs.sat_min.fetch_add(1, Ordering::Relaxed);
         // -2^63 itself is representable; anything at or below it is the minimum
         if got != IMIN {
-            ctx.violation("C32:from-seconds-saturation", format!("from_seconds({x:e}) = {got}, must saturate to i64::MIN"), tr);
+            ctx.violation(
+                "C32:from-seconds-saturation",
+                format!("from_seconds({x:e}) = {got}, must saturate to i64::MIN"),
+                tr,
+            );
         }
     } else {
         if scaled.abs() < 1.0 {
@@ -545,10 +967,18 @@ struct WStat {
 #[inline]
 fn wire_pattern(ctx: &Ctx, fmt: &'static str, shift: u32, bits: u32) -> u64 {
     let dec = |b: u32| -> i64 {
-        if shift == 16 { p::dur_raw(NtpDuration::from_bits_short(b.to_be_bytes())) } else { p::dur_raw(NtpDuration::from_bits_time32(b.to_be_bytes())) }
+        if shift == 16 {
+            p::dur_raw(NtpDuration::from_bits_short(b.to_be_bytes()))
+        } else {
+            p::dur_raw(NtpDuration::from_bits_time32(b.to_be_bytes()))
+        }
     };
     let enc = |d: i64| -> u32 {
-        u32::from_be_bytes(if shift == 16 { p::dur(d).to_bits_short() } else { p::dur(d).to_bits_time32() })
+        u32::from_be_bytes(if shift == 16 {
+            p::dur(d).to_bits_short()
+        } else {
+            p::dur(d).to_bits_time32()
+        })
     };
     let unit = 1i64 << shift;
     let want = (bits as i64) << shift;
@@ -556,7 +986,9 @@ fn wire_pattern(ctx: &Ctx, fmt: &'static str, shift: u32, bits: u32) -> u64 {
         let mut bad: Option<String> = None;
         let d = dec(bits);
         if d != want {
-            bad = Some(format!("decode({bits:#010x}) = {d}, the format says {want}"));
+            bad = Some(format!(
+                "decode({bits:#010x}) = {d}, the format says {want}"
+            ));
         }
         let e = enc(want);
         if e != bits {
@@ -566,15 +998,25 @@ fn wire_pattern(ctx: &Ctx, fmt: &'static str, shift: u32, bits: u32) -> u64 {
             let v = want + delta;
             let back = dec(enc(v));
             if (back - v).abs() >= unit {
-                bad = Some(format!("duration {v} encodes+decodes to {back}: off by a unit ({unit}) or more"));
+                bad = Some(format!(
+                    "duration {v} encodes+decodes to {back}: off by a unit ({unit}) or more"
+                ));
             }
         }
         bad
     });
     match r {
         Ok(None) => {}
-        Ok(Some(msg)) => ctx.violation(&format!("C32:wire-{fmt}-wrong"), msg, format!("wire.{fmt};{bits};0")),
-        Err(e) => ctx.violation(&format!("C32:wire-{fmt}-panic"), format!("pattern {bits:#010x}: panicked: {e}"), format!("wire.{fmt};{bits};0")),
+        Ok(Some(msg)) => ctx.violation(
+            &format!("C32:wire-{fmt}-wrong"),
+            msg,
+            format!("wire.{fmt};{bits};0"),
+        ),
+        Err(e) => ctx.violation(
+            &format!("C32:wire-{fmt}-panic"),
+            format!("pattern {bits:#010x}: panicked: {e}"),
+            format!("wire.{fmt};{bits};0"),
+        ),
     }
     5
 }
@@ -582,18 +1024,31 @@ fn wire_pattern(ctx: &Ctx, fmt: &'static str, shift: u32, bits: u32) -> u64 {
 fn wire_out_of_range(ctx: &Ctx, st: &St, ws: &WStat, fmt: &'static str, shift: u32, d: i64) {
     // non-negative durations that do NOT fit: the statement only demands "no panic"
     st.evals.fetch_add(1, Ordering::Relaxed);
-    let r = common::catch(|| u32::from_be_bytes(if shift == 16 { p::dur(d).to_bits_short() } else { p::dur(d).to_bits_time32() }));
+    let r = common::catch(|| {
+        u32::from_be_bytes(if shift == 16 {
+            p::dur(d).to_bits_short()
+        } else {
+            p::dur(d).to_bits_time32()
+        })
+    });
     match r {
         Ok(e) => {
             if e == u32::MAX {
                 ws.saturated.fetch_add(1, Ordering::Relaxed);
             }
         }
-        Err(e) => ctx.violation(&format!("C32:wire-{fmt}-panic"), format!("encoding the non-negative duration {d} panicked: {e}"), format!("wireoor.{fmt};{d};0")),
+        Err(e) => ctx.violation(
+            &format!("C32:wire-{fmt}-panic"),
+            format!("encoding the non-negative duration {d} panicked: {e}"),
+            format!("wireoor.{fmt};{d};0"),
+        ),
     }
 }
 
-const LOWS: [u32; 16] = [0, 1, 2, 3, 0x7FFF, 0x8000, 0x8001, 0xFFFE, 0xFFFF, 0x00FF, 0x0100, 0xFF00, 0x5555, 0xAAAA, 0x1234, 0xFEDC];
+const LOWS: [u32; 16] = [
+    0, 1, 2, 3, 0x7FFF, 0x8000, 0x8001, 0xFFFE, 0xFFFF, 0x00FF, 0x0100, 0xFF00, 0x5555, 0xAAAA,
+    0x1234, 0xFEDC,
+];
 
 fn wire_sweep(ctx: &Ctx, st: &St, ws: &WStat, fmt: &'static str, shift: u32) {
     let full = !ctx.quick();
@@ -631,39 +1086,85 @@ fn poll_checks(ctx: &Ctx, st: &St) {
         let pi = PollInterval::from_byte(b);
         st.evals.fetch_add(4, Ordering::Relaxed);
         if pi.as_byte() != b || pi.as_log() != k || p::poll_raw(pi) != k {
-            ctx.violation("C32:poll-byte-wrong", format!("PollInterval::from_byte({b}) does not round trip"), format!("poll;{b};0"));
+            ctx.violation(
+                "C32:poll-byte-wrong",
+                format!("PollInterval::from_byte({b}) does not round trip"),
+                format!("poll;{b};0"),
+            );
         }
     }
     for k in i8::MIN..=i8::MAX {
         let pi = p::poll(k);
         match common::catch(|| raw(pi.as_duration())) {
             Ok(d) => {
-                let exact_ok = if (-32..=30).contains(&k) { d == 1i128 << (k as i32 + 32) } else { true };
+                let exact_ok = if (-32..=30).contains(&k) {
+                    d == 1i128 << (k as i32 + 32)
+                } else {
+                    true
+                };
                 if d <= 0 || d < prev_dur || !exact_ok {
                     ctx.violation("C32:poll-duration-wrong", format!("PollInterval({k}).as_duration() = {d}: must be 2^{k} s, positive and monotone"), format!("poll;{};0", k as u8));
                 }
                 prev_dur = d;
             }
-            Err(e) => ctx.violation("C32:poll-duration-panic", format!("PollInterval({k}).as_duration() panicked: {e}"), format!("poll;{};0", k as u8)),
+            Err(e) => ctx.violation(
+                "C32:poll-duration-panic",
+                format!("PollInterval({k}).as_duration() panicked: {e}"),
+                format!("poll;{};0", k as u8),
+            ),
         }
         match common::catch(|| pi.as_system_duration()) {
             Ok(d) => {
                 let ns = d.as_nanos();
-                let exact_ok = if (0..=31).contains(&k) { ns == (1u128 << k) * 1_000_000_000 } else { true };
+                let exact_ok = if (0..=31).contains(&k) {
+                    ns == (1u128 << k) * 1_000_000_000
+                } else {
+                    true
+                };
                 if ns == 0 || ns < prev_sys || !exact_ok {
-                    ctx.violation("C32:poll-duration-wrong", format!("PollInterval({k}).as_system_duration() = {ns} ns"), format!("poll;{};0", k as u8));
+                    ctx.violation(
+                        "C32:poll-duration-wrong",
+                        format!("PollInterval({k}).as_system_duration() = {ns} ns"),
+                        format!("poll;{};0", k as u8),
+                    );
                 }
                 prev_sys = ns;
             }
-            Err(e) => ctx.violation("C32:poll-duration-panic", format!("PollInterval({k}).as_system_duration() panicked: {e}"), format!("poll;{};0", k as u8)),
+            Err(e) => ctx.violation(
+                "C32:poll-duration-panic",
+                format!("PollInterval({k}).as_system_duration() panicked: {e}"),
+                format!("poll;{};0", k as u8),
+            ),
         }
         if let Err(e) = common::catch(|| pi.force_inc()) {
-            ctx.violation("C32:poll-step-panic", format!("PollInterval({k}).force_inc() panicked: {e}"), format!("poll;{};0", k as u8));
+            ctx.violation(
+                "C32:poll-step-panic",
+                format!("PollInterval({k}).force_inc() panicked: {e}"),
+                format!("poll;{};0", k as u8),
+            );
         } else if p::poll_raw(pi.force_inc()) as i32 != (k as i32 + 1).min(127) {
-            ctx.violation("C32:poll-step-wrong", format!("PollInterval({k}).force_inc() = {}", p::poll_raw(pi.force_inc())), format!("poll;{};0", k as u8));
+            ctx.violation(
+                "C32:poll-step-wrong",
+                format!(
+                    "PollInterval({k}).force_inc() = {}",
+                    p::poll_raw(pi.force_inc())
+                ),
+                format!("poll;{};0", k as u8),
+            );
         }
-        for (lo, hi) in [(4i8, 10i8), (0, 17), (-7, 5), (10, 10), (-128, 127), (-128, -128), (127, 127)] {
-            let limits = PollIntervalLimits { min: p::poll(lo), max: p::poll(hi) };
+        for (lo, hi) in [
+            (4i8, 10i8),
+            (0, 17),
+            (-7, 5),
+            (10, 10),
+            (-128, 127),
+            (-128, -128),
+            (127, 127),
+        ] {
+            let limits = PollIntervalLimits {
+                min: p::poll(lo),
+                max: p::poll(hi),
+            };
             st.evals.fetch_add(2, Ordering::Relaxed);
             let inc = common::catch(|| p::poll_raw(pi.inc(limits)));
             let dec = common::catch(|| p::poll_raw(pi.dec(limits)));
@@ -676,21 +1177,49 @@ fn poll_checks(ctx: &Ctx, st: &St) {
                         if k == 127 && i as i32 != iw {
                             inc_wraps += 1; // i8 overflow inside inc() at the very top: reported as an observation
                         } else if i as i32 != iw {
-                            ctx.violation("C32:poll-step-wrong", format!("PollInterval({k}).inc([{lo},{hi}]) = {i}, expected {iw}"), format!("poll;{};0", k as u8));
+                            ctx.violation(
+                                "C32:poll-step-wrong",
+                                format!("PollInterval({k}).inc([{lo},{hi}]) = {i}, expected {iw}"),
+                                format!("poll;{};0", k as u8),
+                            );
                         }
                         if k == -128 && d as i32 != dw {
                             dec_wraps += 1;
                         } else if d as i32 != dw {
-                            ctx.violation("C32:poll-step-wrong", format!("PollInterval({k}).dec([{lo},{hi}]) = {d}, expected {dw}"), format!("poll;{};0", k as u8));
+                            ctx.violation(
+                                "C32:poll-step-wrong",
+                                format!("PollInterval({k}).dec([{lo},{hi}]) = {d}, expected {dw}"),
+                                format!("poll;{};0", k as u8),
+                            );
                         }
                     }
                 }
-                (Err(e), _) | (_, Err(e)) => ctx.violation("C32:poll-step-panic", format!("PollInterval({k}).inc/dec([{lo},{hi}]) panicked: {e}"), format!("poll;{};0", k as u8)),
+                (Err(e), _) | (_, Err(e)) => ctx.violation(
+                    "C32:poll-step-panic",
+                    format!("PollInterval({k}).inc/dec([{lo},{hi}]) panicked: {e}"),
+                    format!("poll;{};0", k as u8),
+                ),
             }
         }
         // from_exponent: 2^k seconds, saturating at the top, flushing to zero at the bottom
-        let want: i128 = if k > 30 { IMAX } else if k >= -32 { 1i128 << (k as i32 + 32) } else { 0 };
-        judge(ctx, st, "from-exponent", "dfromexp", k as i128, 0, common::catch(|| raw(NtpDuration::from_exponent(k))), Want::Exact(want), k > 30);
+        let want: i128 = if k > 30 {
+            IMAX
+        } else if k >= -32 {
+            1i128 << (k as i32 + 32)
+        } else {
+            0
+        };
+        judge(
+            ctx,
+            st,
+            "from-exponent",
+            "dfromexp",
+            k as i128,
+            0,
+            common::catch(|| raw(NtpDuration::from_exponent(k))),
+            Want::Exact(want),
+            k > 30,
+        );
     }
     ctx.set("obs_pollinterval_inc_wraps_at_127", inc_wraps);
     ctx.set("obs_pollinterval_dec_wraps_at_min", dec_wraps);
@@ -706,16 +1235,36 @@ fn observations(ctx: &Ctx, st: &St, bi: &[i64]) {
     let mut fits = 0u64;
     let mut wraps_negative = 0u64;
     let mut other = 0u64;
-    for s in [0u64, 1, 2, 1000, (1 << 31) - 1, 1 << 31, (1 << 31) + 1, (1 << 32) - 1, 1 << 32, 1 << 40, u64::MAX] {
+    for s in [
+        0u64,
+        1,
+        2,
+        1000,
+        (1 << 31) - 1,
+        1 << 31,
+        (1 << 31) + 1,
+        (1 << 32) - 1,
+        1 << 32,
+        1 << 40,
+        u64::MAX,
+    ] {
         for n in [0u32, 1, 499_999_999, 500_000_000, 999_999_999] {
             st.evals.fetch_add(1, Ordering::Relaxed);
             let exact = ((s as i128) << 32) + ((n as i128) << 32) / 1_000_000_000;
-            match common::catch(|| raw(NtpDuration::from_system_duration(std::time::Duration::new(s, n)))) {
+            match common::catch(|| {
+                raw(NtpDuration::from_system_duration(std::time::Duration::new(
+                    s, n,
+                )))
+            }) {
                 Ok(g) => {
                     if exact <= IMAX {
                         fits += 1;
                         if g != exact {
-                            ctx.violation("C32:from-system-duration-wrong", format!("from_system_duration({s}s {n}ns) = {g}, exact {exact}"), format!("dfromsys;{s};{n}"));
+                            ctx.violation(
+                                "C32:from-system-duration-wrong",
+                                format!("from_system_duration({s}s {n}ns) = {g}, exact {exact}"),
+                                format!("dfromsys;{s};{n}"),
+                            );
                         }
                     } else if g < 0 {
                         wraps_negative += 1;
@@ -723,7 +1272,11 @@ fn observations(ctx: &Ctx, st: &St, bi: &[i64]) {
                         other += 1;
                     }
                 }
-                Err(e) => ctx.violation("C32:from-system-duration-panic", format!("from_system_duration({s}s {n}ns) panicked: {e}"), format!("dfromsys;{s};{n}")),
+                Err(e) => ctx.violation(
+                    "C32:from-system-duration-panic",
+                    format!("from_system_duration({s}s {n}ns) panicked: {e}"),
+                    format!("dfromsys;{s};{n}"),
+                ),
             }
         }
     }
@@ -739,9 +1292,17 @@ fn observations(ctx: &Ctx, st: &St, bi: &[i64]) {
             match common::catch(|| raw(p::dur(a) * FrequencyTolerance::ppm(ppm))) {
                 Ok(g) => {
                     let (lo, hi) = quot_bounds(a as i128 * ppm as i128, 1_000_000);
-                    if g >= lo && g <= hi { exact += 1 } else { inexact += 1 }
+                    if g >= lo && g <= hi {
+                        exact += 1
+                    } else {
+                        inexact += 1
+                    }
                 }
-                Err(e) => ctx.violation("C32:freq-tolerance-panic", format!("{a} * FrequencyTolerance({ppm}) panicked: {e}"), format!("dfreq;{a};{ppm}")),
+                Err(e) => ctx.violation(
+                    "C32:freq-tolerance-panic",
+                    format!("{a} * FrequencyTolerance({ppm}) panicked: {e}"),
+                    format!("dfreq;{a};{ppm}"),
+                ),
             }
         }
     }
@@ -760,7 +1321,9 @@ fn run_one(ctx: &Ctx, st: &St, trace: &str) {
     let b: i128 = parts.get(2).and_then(|s| s.parse().ok()).unwrap_or(0);
     let (base, ty) = op.split_once('.').unwrap_or((op, ""));
     match base {
-        "dadd" | "dsub" | "dadd_assign" | "dsub_assign" | "dabsdiff" => dur_binary(ctx, st, a as i64, b as i64),
+        "dadd" | "dsub" | "dadd_assign" | "dsub_assign" | "dabsdiff" => {
+            dur_binary(ctx, st, a as i64, b as i64)
+        }
         "dneg" | "dabs" => dur_unary(ctx, st, a as i64),
         "dmul" | "dmulr" | "dmul_assign" | "ddiv" | "ddiv_assign" => match ty {
             "i8" => scal_i8(ctx, st, a as i64, b as i8),
@@ -773,7 +1336,9 @@ fn run_one(ctx: &Ctx, st: &St, trace: &str) {
             "u32" => scal_u32(ctx, st, a as i64, b as u32),
             _ => {}
         },
-        "tsub" | "troundtrip" | "troundtrip_sub" | "tbefore" => ts_pair(ctx, st, a as u64, b as u64),
+        "tsub" | "troundtrip" | "troundtrip_sub" | "tbefore" => {
+            ts_pair(ctx, st, a as u64, b as u64)
+        }
         "tadd" | "tadd_assign" | "tsubd" | "tsubd_assign" => ts_dur(ctx, st, a as u64, b as i64),
         "ttrunc" => ts_unary(ctx, st, a as u64),
         "tsecnanos" => ts_secnanos(ctx, st, a as u32, b as u32),
@@ -781,12 +1346,26 @@ fn run_one(ctx: &Ctx, st: &St, trace: &str) {
         "dfromsec" => from_seconds_case(ctx, st, &FStat::default(), f64::from_bits(a as u64)),
         "wire" => {
             let shift = if ty == "short" { 16 } else { 4 };
-            wire_pattern(ctx, if ty == "short" { "short" } else { "time32" }, shift, a as u32);
-            OBS.lock().unwrap().push(format!("wire.{ty} pattern {a:#x} checked"));
+            wire_pattern(
+                ctx,
+                if ty == "short" { "short" } else { "time32" },
+                shift,
+                a as u32,
+            );
+            OBS.lock()
+                .unwrap()
+                .push(format!("wire.{ty} pattern {a:#x} checked"));
         }
         "wireoor" => {
             let shift = if ty == "short" { 16 } else { 4 };
-            wire_out_of_range(ctx, st, &WStat::default(), if ty == "short" { "short" } else { "time32" }, shift, a as i64);
+            wire_out_of_range(
+                ctx,
+                st,
+                &WStat::default(),
+                if ty == "short" { "short" } else { "time32" },
+                shift,
+                a as i64,
+            );
         }
         "poll" | "dfromexp" => poll_checks(ctx, st),
         "dfromsys" | "dfreq" => observations(ctx, st, &[a as i64]),
@@ -824,7 +1403,9 @@ fn check() {
          256 bytes x 7 limit pairs. Distinct & non-trivial = a case whose exact result needs saturation/wrapping/era crossing, or a float case, or a wire pattern.",
     );
     ctx.assume("division by zero is undefined and excluded; negative durations are never given to the wire encoders (the statement restricts encoding to non-negative durations)");
-    ctx.assume("i128 arithmetic of rustc and f64 scaling by powers of two are exact (reference side)");
+    ctx.assume(
+        "i128 arithmetic of rustc and f64 scaling by powers of two are exact (reference side)",
+    );
     let st = St::default();
     let bi = b_i64();
     let bu = b_u64();
@@ -855,7 +1436,11 @@ fn check() {
     let s_i64 = scalars_signed(64);
     let s_u16 = scalars_unsigned(16);
     let s_u32 = scalars_unsigned(32);
-    ctx.set("scalars_per_duration", (256 + 256 + s_i16.len() + s_i32.len() + 2 * s_i64.len() + s_u16.len() + s_u32.len()) as u64);
+    ctx.set(
+        "scalars_per_duration",
+        (256 + 256 + s_i16.len() + s_i32.len() + 2 * s_i64.len() + s_u16.len() + s_u32.len())
+            as u64,
+    );
     common::par_for(n, 4, |i| {
         let a = bi[i as usize];
         let mut hs = Vec::new();
@@ -918,8 +1503,28 @@ fn check() {
         }
         ctx.distinct_many(hs);
     });
-    for s in [0u32, 1, 2, 0x7FFF_FFFF, 0x8000_0000, 0xFFFF_FFFE, u32::MAX, 3_900_000_000] {
-        for nn in [0u32, 1, 2, 232, 233, 499_999_999, 500_000_000, 500_000_001, 999_999_998, 999_999_999] {
+    for s in [
+        0u32,
+        1,
+        2,
+        0x7FFF_FFFF,
+        0x8000_0000,
+        0xFFFF_FFFE,
+        u32::MAX,
+        3_900_000_000,
+    ] {
+        for nn in [
+            0u32,
+            1,
+            2,
+            232,
+            233,
+            499_999_999,
+            500_000_000,
+            500_000_001,
+            999_999_998,
+            999_999_999,
+        ] {
             ts_secnanos(&ctx, &st, s, nn);
         }
     }
@@ -929,10 +1534,19 @@ fn check() {
         from_seconds_case(&ctx, &st, &fs, bf[i as usize]);
     });
     ctx.distinct_many(bf.iter().map(|x| common::hash_of(&("f", x.to_bits()))));
-    ctx.set("from_seconds_saturated_max", fs.sat_max.load(Ordering::Relaxed));
-    ctx.set("from_seconds_saturated_min", fs.sat_min.load(Ordering::Relaxed));
+    ctx.set(
+        "from_seconds_saturated_max",
+        fs.sat_max.load(Ordering::Relaxed),
+    );
+    ctx.set(
+        "from_seconds_saturated_min",
+        fs.sat_min.load(Ordering::Relaxed),
+    );
     ctx.set("from_seconds_in_range", fs.inrange.load(Ordering::Relaxed));
-    ctx.set("from_seconds_below_one_unit", fs.tiny.load(Ordering::Relaxed));
+    ctx.set(
+        "from_seconds_below_one_unit",
+        fs.tiny.load(Ordering::Relaxed),
+    );
     // wire formats
     let ws_short = WStat::default();
     let ws_t32 = WStat::default();
@@ -946,12 +1560,25 @@ fn check() {
             wire_out_of_range(&ctx, &st, &ws_t32, "time32", 4, d);
         }
     }
-    ctx.set("wire_short_patterns", ws_short.patterns.load(Ordering::Relaxed));
-    ctx.set("wire_time32_patterns", ws_t32.patterns.load(Ordering::Relaxed));
-    ctx.set("wire_short_too_large_saturated", ws_short.saturated.load(Ordering::Relaxed));
-    ctx.set("wire_time32_too_large_saturated", ws_t32.saturated.load(Ordering::Relaxed));
+    ctx.set(
+        "wire_short_patterns",
+        ws_short.patterns.load(Ordering::Relaxed),
+    );
+    ctx.set(
+        "wire_time32_patterns",
+        ws_t32.patterns.load(Ordering::Relaxed),
+    );
+    ctx.set(
+        "wire_short_too_large_saturated",
+        ws_short.saturated.load(Ordering::Relaxed),
+    );
+    ctx.set(
+        "wire_time32_too_large_saturated",
+        ws_t32.saturated.load(Ordering::Relaxed),
+    );
     // count wire patterns as distinct cases without storing 2^32 hashes
-    let wire_patterns = ws_short.patterns.load(Ordering::Relaxed) + ws_t32.patterns.load(Ordering::Relaxed);
+    let wire_patterns =
+        ws_short.patterns.load(Ordering::Relaxed) + ws_t32.patterns.load(Ordering::Relaxed);
     ctx.set("distinct_wire_patterns", wire_patterns);
     // poll interval + from_exponent
     poll_checks(&ctx, &st);
@@ -959,20 +1586,53 @@ fn check() {
 
     ctx.set("evaluations", st.evals.load(Ordering::Relaxed));
     ctx.set("outcome_exact", st.exact.load(Ordering::Relaxed));
-    ctx.set("outcome_needs_saturation_or_wrap", st.saturated.load(Ordering::Relaxed));
+    ctx.set(
+        "outcome_needs_saturation_or_wrap",
+        st.saturated.load(Ordering::Relaxed),
+    );
     ctx.set("outcome_panicked", st.panics.load(Ordering::Relaxed));
     ctx.set("ts_diff_negative", st.neg_diff.load(Ordering::Relaxed));
     ctx.set("ts_diff_positive", st.pos_diff.load(Ordering::Relaxed));
-    ctx.set("ts_diff_across_era_boundary", st.era_cross.load(Ordering::Relaxed));
-    ctx.set("ts_diff_exactly_half_era", st.half_era.load(Ordering::Relaxed));
-    ctx.sample(format!("timestamps 0xFFFFFFFFFFFFFFFF -> 1: difference {} (across the era boundary)", raw(p::ts(1) - p::ts(u64::MAX))));
-    ctx.sample(format!("NtpDuration(MAX) + NtpDuration(1) = {}", raw(p::dur(i64::MAX) + p::dur(1))));
-    ctx.sample(format!("-NtpDuration(MIN) = {:?}", common::catch(|| raw(-p::dur(i64::MIN)))));
-    ctx.sample(format!("NtpDuration(MIN).abs() = {:?}", common::catch(|| raw(p::dur(i64::MIN).abs()))));
-    ctx.sample(format!("NtpDuration(MIN) / -1i8 = {:?}", common::catch(|| raw(p::dur(i64::MIN) / -1i8))));
-    ctx.sample(format!("from_seconds(2147483648.0) = {}", raw(NtpDuration::from_seconds(2147483648.0))));
-    ctx.sample(format!("from_seconds(-1e-20) = {}", raw(NtpDuration::from_seconds(-1e-20))));
-    ctx.sample(format!("to_bits_short(0x0000_FFFF_FFFF_FFFF) = {:?}", p::dur(0x0000_FFFF_FFFF_FFFF).to_bits_short()));
+    ctx.set(
+        "ts_diff_across_era_boundary",
+        st.era_cross.load(Ordering::Relaxed),
+    );
+    ctx.set(
+        "ts_diff_exactly_half_era",
+        st.half_era.load(Ordering::Relaxed),
+    );
+    ctx.sample(format!(
+        "timestamps 0xFFFFFFFFFFFFFFFF -> 1: difference {} (across the era boundary)",
+        raw(p::ts(1) - p::ts(u64::MAX))
+    ));
+    ctx.sample(format!(
+        "NtpDuration(MAX) + NtpDuration(1) = {}",
+        raw(p::dur(i64::MAX) + p::dur(1))
+    ));
+    ctx.sample(format!(
+        "-NtpDuration(MIN) = {:?}",
+        common::catch(|| raw(-p::dur(i64::MIN)))
+    ));
+    ctx.sample(format!(
+        "NtpDuration(MIN).abs() = {:?}",
+        common::catch(|| raw(p::dur(i64::MIN).abs()))
+    ));
+    ctx.sample(format!(
+        "NtpDuration(MIN) / -1i8 = {:?}",
+        common::catch(|| raw(p::dur(i64::MIN) / -1i8))
+    ));
+    ctx.sample(format!(
+        "from_seconds(2147483648.0) = {}",
+        raw(NtpDuration::from_seconds(2147483648.0))
+    ));
+    ctx.sample(format!(
+        "from_seconds(-1e-20) = {}",
+        raw(NtpDuration::from_seconds(-1e-20))
+    ));
+    ctx.sample(format!(
+        "to_bits_short(0x0000_FFFF_FFFF_FFFF) = {:?}",
+        p::dur(0x0000_FFFF_FFFF_FFFF).to_bits_short()
+    ));
     ctx.exhaustive(true);
     ctx.finish();
 }
